@@ -477,7 +477,7 @@ func runCrashConcurrent(cc crashCase) crashResult {
 		NoTick: true,
 	}
 	x := NewX1(sc, 100) // effectively unbounded: the happens-before cache closes the search
-	x.Deadline = time.Now().Add(60 * time.Second)
+	x.Deadline = newBudget(60 * time.Second)
 	x.explore(nil, nil)
 	res.Execs = x.Execs
 	for _, v := range x.Viol {
